@@ -120,4 +120,18 @@ theorem completionResult_spec {α : Type} (limit : Nat) (values : List α) :
     have : values.length ≤ limit := by omega
     exact ⟨(List.take_of_length_le this).symm, this⟩
 
+/-- two instances of a stateful object driven alternately: the pair of states reached is the pair of the states
+each instance reaches on its own operations alone -/
+def stepTwo {σ α : Type} (f : σ → α → σ) (st : σ × σ) (op : Bool × α) : σ × σ :=
+  if op.1 then (f st.1 op.2, st.2) else (st.1, f st.2 op.2)
+
+theorem foldl_two {σ α : Type} (f : σ → α → σ) (ops : List (Bool × α)) (a b : σ) :
+    ops.foldl (stepTwo f) (a, b) =
+      (((ops.filter (fun o => o.1)).map (·.2)).foldl f a, ((ops.filter (fun o => !o.1)).map (·.2)).foldl f b) := by
+  induction ops generalizing a b with
+  | nil => rfl
+  | cons op rest ih =>
+    obtain ⟨t, x⟩ := op
+    cases t <;> simp [stepTwo, ih]
+
 end Verif.Model.Rpc
